@@ -119,6 +119,10 @@ func TestRepeatGenerated(t *testing.T) {
 	rapid.Check(t, func(rt *rapid.T) {
 		g := gen.Program(rt, cfg)
 		pk.Eval()
+		if tr, ok := px.Model(g); !ok && px.TooBig(tr) {
+			pk.Discard("unbounded-growth")
+			return
+		}
 		c := Case{ProgCase: px.FromGenerated(g), Reps: pk.Scale(6, 24), GoMaxProcs: []int{1, 2, 16}[rapid.IntRange(0, 2).Draw(rt, "gomaxprocs")]}
 		if g.Feat["obj-lit"] > 0 || g.Feat["lambda"] >= 2 || len(g.Fns) >= 2 {
 			pk.NonTrivial(px.ProgText(c.ProgCase), map[string]any{"program": c.Modules["main"], "reps": c.Reps})
